@@ -140,7 +140,7 @@ macro_rules
       · exact absurd rfl hr
       · cases a <;> first | (exact absurd rfl hr) | skip
         all_goals (try (rename_i t v; cases t <;> first | (exact absurd rfl hr) | skip))
-        all_goals simp [Impl.step, Spec.step]))
+        all_goals simp [Impl.step, Spec.step, Impl.stepMore, Spec.stepMore, Impl.execHash]))
 
 section
 variable (env : Env) (pre st : List Val)
@@ -173,6 +173,16 @@ theorem step_LE (hr : Spec.step env .LE st ≠ .err) :
     Impl.step env .LE (stk pre st) = (Spec.step env .LE st).map' (stk pre) := by step_top1
 theorem step_GE (hr : Spec.step env .GE st ≠ .err) :
     Impl.step env .GE (stk pre st) = (Spec.step env .GE st).map' (stk pre) := by step_top1
+theorem step_BLAKE2B (hr : Spec.step env .BLAKE2B st ≠ .err) :
+    Impl.step env .BLAKE2B (stk pre st) = (Spec.step env .BLAKE2B st).map' (stk pre) := by step_top1
+theorem step_SHA256 (hr : Spec.step env .SHA256 st ≠ .err) :
+    Impl.step env .SHA256 (stk pre st) = (Spec.step env .SHA256 st).map' (stk pre) := by step_top1
+theorem step_SHA512 (hr : Spec.step env .SHA512 st ≠ .err) :
+    Impl.step env .SHA512 (stk pre st) = (Spec.step env .SHA512 st).map' (stk pre) := by step_top1
+theorem step_KECCAK (hr : Spec.step env .KECCAK st ≠ .err) :
+    Impl.step env .KECCAK (stk pre st) = (Spec.step env .KECCAK st).map' (stk pre) := by step_top1
+theorem step_SHA3 (hr : Spec.step env .SHA3 st ≠ .err) :
+    Impl.step env .SHA3 (stk pre st) = (Spec.step env .SHA3 st).map' (stk pre) := by step_top1
 theorem step_NOT (hr : Spec.step env .NOT st ≠ .err) :
     Impl.step env .NOT (stk pre st) = (Spec.step env .NOT st).map' (stk pre) := by step_top1
 end
@@ -448,9 +458,9 @@ theorem step_refines (env : Env) (i : Instr) (pre st : List Val) (hr : Spec.step
     all_goals (exfalso; apply hr; cases st <;> rfl)
   case PUSH | LAMBDA | UNIT | NONE | NIL | EMPTY_MAP | SENDER | SOURCE | SELF_ADDRESS | NOW | CHAIN_ID =>
     all_goals simp [Impl.step, Spec.step]
-  case AMOUNT | BALANCE | LEVEL =>
+  case AMOUNT | BALANCE | LEVEL | TOTAL_VOTING_POWER | MIN_BLOCK_TIME =>
     all_goals
-      simp only [Impl.step, Spec.step, numFromValue_eq] at hr ⊢
+      simp only [Impl.step, Spec.step, Impl.stepMore, Spec.stepMore, numFromValue_eq] at hr ⊢
       cases hq : Spec.numOk _ _ <;> simp_all
   case DROP | DUP | SOME | LEFT | RIGHT | FAILWITH =>
     all_goals (rcases st with _ | ⟨a, st⟩ <;> simp_all [Impl.step, Spec.step])
@@ -471,6 +481,19 @@ theorem step_refines (env : Env) (i : Instr) (pre st : List Val) (hr : Spec.step
   case LE => exact step_LE env pre st hr
   case GE => exact step_GE env pre st hr
   case NOT => exact step_NOT env pre st hr
+  case BLAKE2B => exact step_BLAKE2B env pre st hr
+  case SHA256 => exact step_SHA256 env pre st hr
+  case SHA512 => exact step_SHA512 env pre st hr
+  case KECCAK => exact step_KECCAK env pre st hr
+  case SHA3 => exact step_SHA3 env pre st hr
+  case RENAME => rcases st with _ | ⟨a, st⟩ <;> simp_all [Impl.step, Spec.step, Impl.stepMore, Spec.stepMore]
+  case CAST t =>
+    rcases st with _ | ⟨a, st⟩
+    · simp [Spec.step, Spec.stepMore] at hr
+    · simp only [Spec.step, Spec.stepMore] at hr ⊢
+      by_cases h : typeOf a = t
+      · simp [Impl.step, Impl.stepMore, h]
+      · simp [h] at hr
   case DROPN n =>
     simp only [Spec.step] at hr ⊢
     by_cases h : n ≤ st.length
